@@ -223,7 +223,6 @@ func init() {
 	}
 }
 
-
 // variants in which the first request is abandoned by its caller (context cancelled) at any moment
 func withCancel(sp worldSpec, names ...string) worldSpec {
 	out := sp
@@ -297,7 +296,6 @@ func init() {
 	}
 }
 
-
 // a ledger that has only ever received metadata writes, stopped and started again
 var specMetaOnlyRestart = worldSpec{Name: "meta-only-restart", Crash: true,
 	Seed: func(st *memstore.Store) {
@@ -316,7 +314,6 @@ func init() {
 		return append(b06(), planItem{register(worldScenario("C06", specMetaOnlyRestart, ackOracle)), 2, 3})
 	}
 }
-
 
 var specEventsFault = worldSpec{Name: "events-fault-insert", Seed: seedA100, FaultInsert: true,
 	Gen1: []reqSpec{create("c1", 5, "@world", "@b"), {Name: "r0", Kind: "revert", TxID: 0}},
@@ -412,5 +409,90 @@ func init() {
 			planItem{register(worldScenario("C11", specRefPaddedSame, refOracle)), 3, 4},
 			planItem{register(worldScenario("C11", specRefVariants, refOracle)), 2, 3},
 			planItem{register(worldScenario("C11", specRefPostingsPadded, refOracle)), 2, 3})
+	}
+}
+
+// C09, concurrent part: posting-mode requests of the same shape (their generated script text is identical, so they share
+// one cached compiled program) on disjoint accounts; each must commit, and be answered with, exactly its own postings.
+var (
+	specPostingsSameShape2 = worldSpec{Name: "postings-same-shape2", Seed: seedA100,
+		Gen1: []reqSpec{{Name: "p1", Kind: "create", Postings: ledger.Postings{post("world", "alice", 5)}}, {Name: "p2", Kind: "create", Postings: ledger.Postings{post("world", "bob", 7)}}}}
+	specPostingsSameShape3 = worldSpec{Name: "postings-same-shape3", Seed: seedA100,
+		Gen1: []reqSpec{{Name: "p1", Kind: "create", Postings: ledger.Postings{post("world", "alice", 5), post("alice", "carol", 2)}},
+			{Name: "p2", Kind: "create", Postings: ledger.Postings{post("world", "bob", 7), post("bob", "dave", 3)}},
+			{Name: "p3", Kind: "create", Postings: ledger.Postings{post("a", "erin", 9), post("erin", "frank", 4)}}}}
+	specPostingsMixedShape = worldSpec{Name: "postings-script-and-postings", Seed: seedA100,
+		Gen1: []reqSpec{{Name: "p1", Kind: "create", Postings: ledger.Postings{post("a", "alice", 60)}}, {Name: "p2", Kind: "create", Postings: ledger.Postings{post("a", "bob", 60)}}, create("s3", 5, "@world", "@carol")}}
+)
+
+// postingsOracle: every accepted posting-mode request has one row holding exactly its postings, and was answered with them.
+func postingsOracle(w *worldRun) (string, string) {
+	logs := w.Store.Snapshot()
+	for _, res := range w.Results {
+		if res.Spec.Postings == nil || res.Class != "ok" {
+			continue
+		}
+		rows := rowFor(res.Spec, logs, w.SeedLen)
+		if len(rows) != 1 {
+			return fmt.Sprintf("%s was accepted but has %d log entries", res.Spec.Name, len(rows)), "postings-rows"
+		}
+		ptx := txOfRow(rows[0])
+		if ptx == nil || fmt.Sprint(ptx.Postings) != fmt.Sprint(res.Spec.Postings) {
+			return fmt.Sprintf("%s asked for %v, the committed transaction holds %v", res.Spec.Name, res.Spec.Postings, ptx), "postings-committed"
+		}
+		if res.Tx != nil && fmt.Sprint(res.Tx.Postings) != fmt.Sprint(res.Spec.Postings) {
+			return fmt.Sprintf("%s asked for %v, the answer holds %v", res.Spec.Name, res.Spec.Postings, res.Tx.Postings), "postings-answered"
+		}
+	}
+	// nothing else was committed under a request's tag
+	for _, l := range logs[w.SeedLen:] {
+		if tx := txOfRow(l); tx != nil {
+			found := false
+			for _, res := range w.Results {
+				if tx.Metadata["tag"] == res.Spec.Name {
+					found = true
+				}
+			}
+			if !found {
+				return fmt.Sprintf("transaction %s belongs to no request", tx.ID), "postings-orphan"
+			}
+		}
+	}
+	return "", ""
+}
+
+func init() {
+	plans["C09"] = func() []planItem {
+		return []planItem{
+			{register(worldScenario("C09", specPostingsSameShape2, postingsOracle, spendOracle)), 3, 4},
+			{register(worldScenario("C09", specPostingsSameShape3, postingsOracle, spendOracle)), 2, 3},
+			{register(worldScenario("C09", specPostingsMixedShape, postingsOracle, spendOracle)), 2, 3},
+			{register(worldScenario("C09", specSpend2Postings, postingsOracle, spendOracle)), 3, 4},
+		}
+	}
+}
+
+// C14, concurrent part (continued): the preview shares a reservation key with the real writes racing beside it
+var (
+	specPreviewSharedRef = worldSpec{Name: "preview-shares-reference", Seed: seedA100,
+		Gen1: []reqSpec{{Name: "p1", Kind: "create", Script: sendScript(5, "@world", "@b"), Ref: "r", DryRun: true},
+			{Name: "c1", Kind: "create", Script: sendScript(5, "@world", "@c"), Ref: "r"}, {Name: "c2", Kind: "create", Script: sendScript(5, "@world", "@d"), Ref: "r"}}}
+	specPreviewSharedIK = worldSpec{Name: "preview-shares-idempotency-key", Seed: seedA100,
+		Gen1: []reqSpec{{Name: "p1", Kind: "create", Script: sendScript(5, "@world", "@b"), IK: "k", DryRun: true},
+			{Name: "c1", Kind: "create", Script: sendScript(5, "@world", "@c"), IK: "k"}, {Name: "c1", Kind: "create", Script: sendScript(5, "@world", "@c"), IK: "k"}}}
+	specPreviewSharedRevert = worldSpec{Name: "preview-shares-revert-target", Seed: seedA100,
+		Gen1: []reqSpec{{Name: "p0", Kind: "revert", TxID: 0, IK: "kp", DryRun: true}, {Name: "r0a", Kind: "revert", TxID: 0}, {Name: "r0b", Kind: "revert", TxID: 0}}}
+)
+
+func init() {
+	b14, b11 := plans["C14"], plans["C11"]
+	plans["C14"] = func() []planItem {
+		return append(b14(),
+			planItem{register(worldScenario("C14", specPreviewSharedRef, chainOracle, previewOracle, eventOracle, ackOracle, refOracle)), 2, 3},
+			planItem{register(worldScenario("C14", specPreviewSharedIK, chainOracle, previewOracle, eventOracle, ikOracle)), 2, 3},
+			planItem{register(worldScenario("C14", specPreviewSharedRevert, chainOracle, previewOracle, eventOracle, revertOracle)), 2, 3})
+	}
+	plans["C11"] = func() []planItem {
+		return append(b11(), planItem{register(worldScenario("C11", specPreviewSharedRef, refOracle)), 2, 3})
 	}
 }
